@@ -364,6 +364,15 @@ func (c *Client) Create(ctx context.Context, obj client.Object, opts ...client.C
 	if _, ok := s.versions[gvk.GroupKind()]; !ok {
 		s.versions[gvk.GroupKind()] = gvk.Version
 	}
+	if s.BeforeCommit != nil {
+		err, lose := s.BeforeCommit(call)
+		if err != nil {
+			return c.end(call, err)
+		}
+		if lose {
+			call.LoseResponse = true
+		}
+	}
 	s.objs[k] = o
 	s.seq++
 	w := &Write{Seq: s.seq, Actor: c.actor, Rid: call.Rid, Verb: "create", Key: k, GVK: gvk, After: o, CallSeq: call.Seq}
@@ -406,6 +415,15 @@ func (c *Client) Delete(ctx context.Context, obj client.Object, opts ...client.D
 		}
 		if do.Preconditions.ResourceVersion != nil && *do.Preconditions.ResourceVersion != Str(old, "metadata.resourceVersion") {
 			return c.end(call, apierrors.NewConflict(gr(gvk), k.Name, fmt.Errorf("resourceVersion precondition failed")))
+		}
+	}
+	if s.BeforeCommit != nil {
+		err, lose := s.BeforeCommit(call)
+		if err != nil {
+			return c.end(call, err)
+		}
+		if lose {
+			call.LoseResponse = true
 		}
 	}
 	w := s.deleteLocked(c.actor, call, gvk, k, old)
@@ -623,6 +641,15 @@ func (c *Client) commit(call *Call, verb string, gvk schema.GroupVersionKind, k 
 		// no-op: nothing is committed, no event, resourceVersion unchanged
 		_ = c.end(call, nil)
 		return decodeInto(old, out, gvk)
+	}
+	if s.BeforeCommit != nil {
+		err, lose := s.BeforeCommit(call)
+		if err != nil {
+			return c.end(call, err)
+		}
+		if lose {
+			call.LoseResponse = true
+		}
 	}
 	ncmd := nc["metadata"].(map[string]interface{})
 	specChanged := !Equal(oc["spec"], nc["spec"])
